@@ -205,7 +205,7 @@ pub const fn fnv(s: &str) -> u64 {
 
 /// A string is an abstract identity.  The empty string has id `EMPTY_ID`; `len()` is an
 /// uninterpreted function of the identity that is zero exactly for the empty string.
-#[derive(Clone, Debug, PartialEq, Eq)]
+#[derive(Clone, Debug, PartialEq, Eq, PartialOrd, Ord)]
 pub struct String {
     pub id: u64,
 }
@@ -277,7 +277,7 @@ impl Wordy for &'static str {
     }
 }
 
-#[derive(Clone, Debug, PartialEq, Eq)]
+#[derive(Clone, Debug, PartialEq, Eq, PartialOrd, Ord)]
 pub struct Symbol(pub u64);
 impl Symbol {
     pub fn new(_e: &Env, s: &str) -> Self {
@@ -307,7 +307,7 @@ impl Wordy for Symbol {
 /// `Bytes` built from fixed-size chunks (`From<BytesN>`, `extend_from_array`) get an injective
 /// identity of their chunk list.  Content-level access (`to_alloc_vec`, `from_slice`) only works
 /// for byte strings registered in the content table (codec harnesses).
-#[derive(Clone, Debug, PartialEq, Eq)]
+#[derive(Clone, Debug, PartialEq, Eq, PartialOrd, Ord)]
 pub struct Bytes {
     pub id: u64,
 }
@@ -739,7 +739,11 @@ impl Persistent {
     pub fn extend_ttl<K: IntoVal<Env, Val>>(&self, _k: &K, _a: u32, _b: u32) {}
 }
 impl Temporary {
-    pub fn extend_ttl<K: IntoVal<Env, Val>>(&self, _k: &K, _a: u32, _b: u32) {}
+    /// Expiry itself is not modelled (A-TTL), but the request is recorded: a contract that promises an
+    /// entry to live until some ledger must ask for at least that lifetime.
+    pub fn extend_ttl<K: IntoVal<Env, Val>>(&self, k: &K, threshold: u32, extend_to: u32) {
+        log_temp_ttl(k.shim_words(), threshold, extend_to);
+    }
 }
 
 pub struct Ledger;
